@@ -8,7 +8,7 @@ import jets as J
 PID = 'C02'
 STATS = G.STATS
 PARTIAL = [
-    "higher orders: the Lean theorem 'the model's value is the derivative of the span polynomial' is proved for orders 0 and 1 (A3.3/A3.4 route); orders >= 2, the A2.3 table and the surface case are covered by correspondence with the model and by the exact jet oracle",
+    "curves, every order: proved (curve_derivatives_are_true_derivatives). The surface case, the list models of A4.2 / A4.4 and the A2.3 table (spec-level model) are covered by correspondence with the model and by the exact jet oracle",
     "unit length of normalised tangents / normals is a floating-point statement (sqrt); checked in the oracle to 1e-12 only",
 ]
 
